@@ -47,19 +47,79 @@ func twins() []twin {
 	return out
 }
 
-// twinWeakenings returns unknown numbers that admit t.mid, bounded by the twins.
-func twinWeakenings(t twin) []cty.Value {
+// twinWeakenings returns unknown numbers that admit x (one of t.lo, t.mid, t.hi), bounded
+// by the three values of the twin: every lower bound b with b < x exactly (inclusive and
+// exclusive) or b == x (inclusive), likewise every upper bound, alone and in pairs, with
+// and without not-null. "Admits" is decided by exact comparison, which is what the
+// refinement builder itself uses when it checks a bound against a known value.
+type bd struct {
+	v   cty.Value
+	inc bool
+}
+
+type twinW struct {
+	val    cty.Value
+	lo, hi *bd
+}
+
+// separates reports whether the range of w rules out `other` under exact comparison in a way that
+// documented equality does not mend: other lies beyond a bound, and that bound is exclusive or is
+// not the same number as other by documented equality (Equals).
+func (w twinW) separates(other cty.Value) bool {
+	of := other.AsBigFloat()
+	beyond := func(b *bd, sign int) bool {
+		if b == nil {
+			return false
+		}
+		c := of.Cmp(b.v.AsBigFloat()) * sign // > 0: other is beyond the bound
+		if c < 0 || (c == 0 && b.inc) {
+			return false
+		}
+		if b.inc && other.Equals(b.v).True() {
+			return false // beyond exactly, but the inclusive bound is "the same number": LessThanOrEqualTo mends it
+		}
+		return true
+	}
+	return beyond(w.lo, -1) || beyond(w.hi, 1)
+}
+
+func twinWeakenings(t twin, x cty.Value) []twinW {
 	u := cty.UnknownVal(cty.Number)
-	var out []cty.Value
-	for _, inc := range []bool{true, false} {
-		out = append(out,
-			u.Refine().NumberRangeLowerBound(t.lo, inc).NewValue(),
-			u.Refine().NumberRangeUpperBound(t.hi, inc).NewValue(),
-			u.Refine().NotNull().NumberRangeLowerBound(t.lo, inc).NewValue(),
-			u.Refine().NotNull().NumberRangeUpperBound(t.hi, inc).NewValue(),
-			u.Refine().NotNull().NumberRangeLowerBound(t.lo, inc).NumberRangeUpperBound(t.hi, inc).NewValue(),
-			u.Refine().NotNull().NumberRangeLowerBound(t.lo, inc).NumberRangeUpperBound(t.hi, !inc).NewValue(),
-		)
+	var lows, ups []bd
+	xf := x.AsBigFloat()
+	for _, b := range []cty.Value{t.lo, t.mid, t.hi} {
+		switch c := b.AsBigFloat().Cmp(xf); {
+		case c < 0:
+			lows = append(lows, bd{b, true}, bd{b, false})
+		case c > 0:
+			ups = append(ups, bd{b, true}, bd{b, false})
+		default:
+			lows = append(lows, bd{b, true})
+			ups = append(ups, bd{b, true})
+		}
+	}
+	var out []twinW
+	for _, nn := range []bool{false, true} {
+		start := func() *cty.RefinementBuilder {
+			if nn {
+				return u.Refine().NotNull()
+			}
+			return u.Refine()
+		}
+		for i := range lows {
+			l := lows[i]
+			out = append(out, twinW{start().NumberRangeLowerBound(l.v, l.inc).NewValue(), &l, nil})
+		}
+		for i := range ups {
+			h := ups[i]
+			out = append(out, twinW{start().NumberRangeUpperBound(h.v, h.inc).NewValue(), nil, &h})
+		}
+		for i := range lows {
+			for j := range ups {
+				l, h := lows[i], ups[j]
+				out = append(out, twinW{start().NumberRangeLowerBound(l.v, l.inc).NumberRangeUpperBound(h.v, h.inc).NewValue(), &l, &h})
+			}
+		}
 	}
 	return out
 }
@@ -71,24 +131,35 @@ var twinOps = []string{"LessThan", "GreaterThan", "LessThanOrEqualTo", "GreaterT
 func runTwins(c *core.Ctx, base int64) {
 	idx := base
 	for _, t := range twins() {
-		ws := twinWeakenings(t)
+		ws := twinWeakenings(t, t.mid)
 		for _, on := range twinOps {
 			op := opByName(on)
-			for _, other := range []cty.Value{t.lo, t.hi, t.mid} {
-				for _, w := range ws {
-					for order := 0; order < 2; order++ {
-						idx++
-						if !c.Want(idx) {
-							continue
+			for xi, x := range []cty.Value{t.mid, t.lo, t.hi} {
+				xws := ws
+				if xi > 0 {
+					xws = twinWeakenings(t, x)
+				}
+				for _, other := range []cty.Value{t.lo, t.hi, t.mid} {
+					for _, w := range xws {
+						for order := 0; order < 2; order++ {
+							idx++
+							if !c.Want(idx) {
+								continue
+							}
+							conc := []cty.Value{x, other}
+							abs := []cty.Value{w.val, other}
+							if order == 1 {
+								conc = []cty.Value{other, x}
+								abs = []cty.Value{other, w.val}
+							}
+							if x.AsBigFloat().Cmp(other.AsBigFloat()) != 0 && x.Equals(other).True() && w.separates(other) {
+								classSuffix = "/operands-equal-by-text-only"
+								c.Count("twin-cases:operands-equal-by-text-only")
+							}
+							checkCase(c, idx, op, conc, abs, "", 1)
+							classSuffix = ""
+							c.Count("twin-cases")
 						}
-						conc := []cty.Value{t.mid, other}
-						abs := []cty.Value{w, other}
-						if order == 1 {
-							conc = []cty.Value{other, t.mid}
-							abs = []cty.Value{other, w}
-						}
-						checkCase(c, idx, op, conc, abs, "", 1)
-						c.Count("twin-cases")
 					}
 				}
 			}
@@ -102,7 +173,7 @@ func runTwins(c *core.Ctx, base int64) {
 						if !c.Want(idx) {
 							continue
 						}
-						checkCase(c, idx, op, []cty.Value{t.mid, other}, []cty.Value{w, o2}, "", 2)
+						checkCase(c, idx, op, []cty.Value{t.mid, other}, []cty.Value{w.val, o2}, "", 2)
 						c.Count("twin-cases")
 					}
 				}
@@ -123,7 +194,9 @@ func runNullPairs(c *core.Ctx, base int64) {
 	wrap := []func(v cty.Value) cty.Value{
 		func(v cty.Value) cty.Value { return v },
 		func(v cty.Value) cty.Value { return cty.TupleVal([]cty.Value{v, cty.True}) },
-		func(v cty.Value) cty.Value { return cty.ObjectVal(map[string]cty.Value{"a": v, "b": cty.StringVal("x")}) },
+		func(v cty.Value) cty.Value {
+			return cty.ObjectVal(map[string]cty.Value{"a": v, "b": cty.StringVal("x")})
+		},
 		func(v cty.Value) cty.Value { return cty.ListVal([]cty.Value{v}) },
 	}
 	for _, ta := range tys {
